@@ -21,10 +21,11 @@ Definition dt_word (class version cbf : N) : N :=
 Definition dt_header (class version cbf size : N) : bytes :=
   le 4 (dt_word class version cbf) ++ le 4 size.
 
-(* D10 switch: [false] = the code as it is (class and version nibbles swapped, type flags written at
-   bytes 8-11 instead of into the class bit field); [true] = the repaired layout (standard header,
-   base type directly after it).  Changing this one definition switches the model. *)
-Definition vlen_header_repaired : bool := false.
+(* D10 switch: [false] = the layout before /repo commit 71914eb (class and version nibbles swapped, type
+   flags written at bytes 8-11 instead of into the class bit field); [true] = the repaired layout written
+   since then (standard header, version 1, base type directly after it).  This one definition selects the
+   layout the tie compares with the Go code; theorems exist for both (C11_vlen_refuted / C11_vlen_roundtrip). *)
+Definition vlen_header_repaired : bool := true.
 Definition vlen_repaired_version : N := 1.
 
 Definition numeric_props (class size cbf : N) : bytes :=
